@@ -3,9 +3,23 @@
 pub mod src;
 pub mod common;
 pub mod c07;
+pub mod c09;
+pub mod c10;
+pub mod c12;
+pub mod c13;
+pub mod c15;
+pub mod c17;
+pub mod c18;
 
 pub fn registry() -> Vec<(&'static str, src::ReplayFn)> {
     let mut v = Vec::new();
     v.extend_from_slice(c07::REGISTRY);
+    v.extend_from_slice(c09::REGISTRY);
+    v.extend_from_slice(c10::REGISTRY);
+    v.extend_from_slice(c12::REGISTRY);
+    v.extend_from_slice(c13::REGISTRY);
+    v.extend_from_slice(c15::REGISTRY);
+    v.extend_from_slice(c17::REGISTRY);
+    v.extend_from_slice(c18::REGISTRY);
     v
 }
